@@ -291,6 +291,7 @@ pub fn opt_kinds() -> Vec<(u32, K)> {
         (10, K::Prf),
         (4, K::PermPrf),
         (8, K::Dup),
+        (3, K::DupSwap),
     ]
 }
 
